@@ -118,7 +118,10 @@ func exprLevel(e Expr) int {
 	case *Unary:
 		return lvPrefix
 	case *IncDec:
-		return lvLowest // only ever written as a complete operand
+		if !x.Prefix {
+			return lvPost // x++ binds like a suffix: - x ++ is -(x++), x ++ * y is (x++) * y
+		}
+		return lvLowest // the prefix forms are only ever written as a complete operand
 	case *Binary:
 		return binLevel(x.Op)
 	case *IsExpr:
